@@ -6,19 +6,21 @@ set -u
 W=$1; P=$2; NAME=$3
 cd "$W" || exit 1
 [ -s patch.diff ] || { echo "empty patch"; exit 1; }
-cp patch.diff /tmp/_seed_patch.diff
+T=$(mktemp -d /var/tmp/vp-import-XXXXXX)   # (per invocation: two imports running at the same time once shared one file and stored each other's patch)
+trap 'rm -rf "$T"' EXIT
+cp patch.diff $T/seed_patch.diff
 git checkout -q -- btc_hd_wallet tests 2>/dev/null
-git apply --check /tmp/_seed_patch.diff && echo "patch applies cleanly on clean tree"; APPLY=$?
-echo "== files touched: $(grep '^+++ ' /tmp/_seed_patch.diff | tr '\n' ' ')"
+git apply --check $T/seed_patch.diff && echo "patch applies cleanly on clean tree"; APPLY=$?
+echo "== files touched: $(grep '^+++ ' $T/seed_patch.diff | tr '\n' ' ')"
 echo "== demo without change"
-PYTHONPATH=$W PYTHONDONTWRITEBYTECODE=1 timeout 1200 /venv/bin/python demo.py > /tmp/_demo_without.txt 2>&1; RC_WITHOUT=$?; tail -2 /tmp/_demo_without.txt; echo "exit=$RC_WITHOUT"
-git apply /tmp/_seed_patch.diff || { echo "apply failed"; exit 1; }
+PYTHONPATH=$W PYTHONDONTWRITEBYTECODE=1 timeout 1200 /venv/bin/python demo.py > $T/demo_without.txt 2>&1; RC_WITHOUT=$?; tail -2 $T/demo_without.txt; echo "exit=$RC_WITHOUT"
+git apply $T/seed_patch.diff || { echo "apply failed"; exit 1; }
 echo "== suite with change"
 SUITE=$(PYTHONPATH=$W PYTHONDONTWRITEBYTECODE=1 /venv/bin/python -m pytest -q -p no:cacheprovider tests 2>&1 | tail -1); echo "$SUITE"
 echo "== demo with change"
-PYTHONPATH=$W PYTHONDONTWRITEBYTECODE=1 timeout 1200 /venv/bin/python demo.py > /tmp/_demo_with.txt 2>&1; RC_WITH=$?; tail -3 /tmp/_demo_with.txt; echo "exit=$RC_WITH"
+PYTHONPATH=$W PYTHONDONTWRITEBYTECODE=1 timeout 1200 /venv/bin/python demo.py > $T/demo_with.txt 2>&1; RC_WITH=$?; tail -3 $T/demo_with.txt; echo "exit=$RC_WITH"
 D=/verif/seeded/$NAME; mkdir -p $D
-cp /tmp/_seed_patch.diff $D/patch.diff; cp demo.py $D/demo.py; [ -f NOTES.md ] && cp NOTES.md $D/NOTES.md
+cp $T/seed_patch.diff $D/patch.diff; cp demo.py $D/demo.py; [ -f NOTES.md ] && cp NOTES.md $D/NOTES.md
 python3 - "$D" "$P" "$SUITE" "$RC_WITH" "$RC_WITHOUT" "$APPLY" <<'PY'
 import json, sys, os
 d, prop, suite, rcw, rcwo, apply = sys.argv[1:]
